@@ -2,12 +2,15 @@ package props
 
 import (
 	"bufio"
+	"bytes"
 	"encoding/json"
 	"fmt"
 	"math/rand"
 	"os"
+	"path"
 	"path/filepath"
 	"sort"
+	"strconv"
 	"strings"
 	"time"
 
@@ -29,6 +32,7 @@ type hookEvent struct {
 	Syntax int     `json:"syntax"`
 	Failed bool    `json:"failed"`
 	Days   int     `json:"days"`
+	Parent string  `json:"parent"`
 }
 
 func readHookTrace(path string) ([]hookEvent, error) {
@@ -115,6 +119,7 @@ func buildPipelineCase(sc c19Scenario, exit int, timedOut bool, stderr string, e
 			modAdded += e.N
 		}
 	}
+	cs["load"] = loadRunOf(evs, exit, timedOut)
 	sort.Ints(runIDs)
 	runs := []any{}
 	for _, r := range runIDs {
@@ -166,6 +171,7 @@ func runC19(c *core.Ctx, bin, root string, sc c19Scenario) map[string]any {
 	cs := buildPipelineCase(sc, r.Exit, r.TimedOut, r.Stderr, evs)
 	cs["stderr"] = tailStr(r.Stderr, 3000)
 	cs["stepsOK"], cs["steps"] = true, ""
+	cs["loadOK"], cs["loadWhy"] = true, ""
 	return cs
 }
 
@@ -349,6 +355,43 @@ func C19(c *core.Ctx) {
 	cases := make([]map[string]any, len(scs))
 	core.Parallel(len(scs), func(i int) { cases[i] = runC19(c, bin, root, scs[i]) })
 	c.Add("process_calls_validated_step_by_step", applySteps(c, cases))
+	// keep a copy of one eligible load for the non-vacuity test below (applyLoadSteps consumes the records)
+	var sampleLoad map[string]any
+	for _, cs := range cases {
+		if m, ok := cs["load"].(map[string]any); ok && cs["variant"] == "none" && len(m["ev"].([]any)) >= 6 && m["n"].(int) >= 2 {
+			sampleLoad = m
+			break
+		}
+	}
+	c.Add("loads_validated_step_by_step", applyLoadSteps(c, cases))
+	if sampleLoad != nil {
+		mutLoad := func(f func(ev []any) ([]any, bool)) map[string]any {
+			ev, ok := f(append([]any(nil), sampleLoad["ev"].([]any)...))
+			return map[string]any{"id": 0, "load": map[string]any{"n": sampleLoad["n"], "inc": sampleLoad["inc"], "bad": sampleLoad["bad"], "ok": ok, "ev": ev}}
+		}
+		muts := []map[string]any{
+			mutLoad(func(ev []any) ([]any, bool) { return ev[1:], true }),                    // a logged step removed
+			mutLoad(func(ev []any) ([]any, bool) { return ev, false }),                       // result flipped
+			mutLoad(func(ev []any) ([]any, bool) { return append(ev, ev[len(ev)-1]), true }), // a step duplicated
+			mutLoad(func(ev []any) ([]any, bool) { // a file converted before it was parsed
+				for i, e := range ev {
+					if e.(map[string]any)["k"] == "conv" {
+						ev[0], ev[i] = ev[i], ev[0]
+						break
+					}
+				}
+				return ev, true
+			}),
+		}
+		for k, m := range muts {
+			m["id"] = -(k + 1)
+			applyLoadSteps(c, []map[string]any{m})
+			if m["loadOK"] == true {
+				c.Infra("load step validation accepted corrupted load %d: the trace specification does not constrain the load", k+1)
+			}
+		}
+		c.Add("corrupted_loads_rejected", len(muts))
+	}
 	// the binding is not vacuous: corrupted copies of an accepted recorded run must be rejected
 	for _, cs := range cases {
 		rs := stepRunsOf(cs)
@@ -409,6 +452,7 @@ func C19(c *core.Ctx) {
 		func(old map[string]any) map[string]any {
 			cs := runC19(c, bin, root, scs[old["id"].(int)-1])
 			applySteps(c, []map[string]any{cs})
+			applyLoadSteps(c, []map[string]any{cs})
 			return cs
 		},
 		func(cs map[string]any) (string, string) {
@@ -419,4 +463,128 @@ func C19(c *core.Ctx) {
 			}
 			return "pipeline:" + fmt.Sprint(cs["why"]), fmt.Sprintf("knut %v (variant %v, GOMAXPROCS=%v, sched seed %v): %v\n%v\nexit=%v\nruns: %v\nstderr:\n%v\nfiles:\n%s", cs["argv"], cs["variant"], cs["procs"], cs["seed"], cs["why"], cs["steps"], cs["exit"], cs["runs"], cs["stderr"], fl.String())
 		})
+}
+
+// loadRunOf extracts the recorded load (journal.FromPath) of a command run for step-by-step validation against
+// Loader.tla: files in order of first appearance (root = 1), the include relation from the FileStart events,
+// the fate of every file, and the logged steps.  nil when the run is not eligible (no events, too many files).
+func loadRunOf(evs []hookEvent, exit int, timedOut bool) any {
+	if timedOut || len(evs) == 0 {
+		return nil
+	}
+	idx := map[string]int{}
+	var inc [][]any
+	var bad []any
+	clean := func(p string) string { return path.Clean(p) }
+	loaded := false
+	var ev []any
+	for _, e := range evs {
+		switch e.Ev {
+		case "FileStart":
+			p := clean(e.Path)
+			if _, ok := idx[p]; ok {
+				return nil // a file included twice: outside the tree model
+			}
+			idx[p] = len(idx) + 1
+			inc = append(inc, []any{})
+			bad = append(bad, "ok")
+			if len(idx) > 1 {
+				par, ok := idx[clean(e.Parent)]
+				if !ok {
+					return nil
+				}
+				inc[par-1] = append(inc[par-1], idx[p])
+			}
+		case "FileDone":
+			f, ok := idx[clean(e.Path)]
+			if !ok {
+				return nil
+			}
+			if e.Failed {
+				bad[f-1] = "syntax"
+			}
+			ev = append(ev, map[string]any{"k": "done", "f": f})
+		case "Converted", "ConvertFailed":
+			f, ok := idx[clean(e.Path)]
+			if !ok {
+				return nil
+			}
+			k := "conv"
+			if e.Ev == "ConvertFailed" {
+				k, bad[f-1] = "convfail", "model"
+			}
+			ev = append(ev, map[string]any{"k": k, "f": f})
+		case "Added":
+			ev = append(ev, map[string]any{"k": "added", "f": 0})
+		case "ProcessStart":
+			loaded = true
+		}
+	}
+	if len(idx) == 0 || len(idx) > 10 || len(ev) > 80 {
+		return nil
+	}
+	if ev == nil {
+		ev = []any{}
+	}
+	return map[string]any{"n": len(idx), "inc": inc, "bad": bad, "ok": loaded || exit == 0, "ev": ev}
+}
+
+// applyLoadSteps validates the recorded loads of the given cases against Loader.tla (Trace_LoaderSteps) and
+// records the verdicts in them.
+func applyLoadSteps(c *core.Ctx, cases []map[string]any) int {
+	type item struct {
+		cs   map[string]any
+		line []byte
+		nev  int
+	}
+	var items []item
+	for _, cs := range cases {
+		cs["loadOK"], cs["loadWhy"] = true, ""
+		m, ok := cs["load"].(map[string]any)
+		delete(cs, "load") // (not part of the judged case record)
+		if !ok {
+			continue
+		}
+		m["id"] = cs["id"]
+		line, _ := json.Marshal(m)
+		items = append(items, item{cs, line, len(m["ev"].([]any))})
+	}
+	total := len(items)
+	nb := (len(items) + 149) / 150
+	batches := make([][]item, nb)
+	for i, it := range items {
+		batches[i%nb] = append(batches[i%nb], it)
+	}
+	core.Parallel(nb, func(b int) {
+		g := batches[b]
+		for len(g) > 0 {
+			var buf bytes.Buffer
+			for _, it := range g {
+				buf.Write(it.line)
+				buf.WriteByte('\n')
+			}
+			t := c.TLC(core.TLCOpts{Spec: "Trace_LoaderSteps", Cfg: "Trace_LoaderSteps.cfg", Files: map[string][]byte{"runs.ndjson": buf.Bytes()}, Workers: 1, Timeout: 10 * time.Minute, Heap: "2g", DFS: true})
+			if t.Violated == "NotAllAccepted" {
+				return
+			}
+			hw := 0
+			if m := reHighWater.FindStringSubmatch(t.Out); m != nil {
+				hw, _ = strconv.Atoi(m[1])
+			}
+			rr, l := hw/hwBase, hw%hwBase
+			if t.Violated != "" || t.TimedOut || !t.OK || rr < 1 || rr > len(g) {
+				c.Infra("load step validation did not complete: violated=%q timedOut=%v\n%s", t.Violated, t.TimedOut, tailStr(t.Out, 1500))
+				return
+			}
+			bad := g[rr-1]
+			bad.cs["loadOK"] = false
+			if l > bad.nev {
+				bad.cs["loadWhy"] = fmt.Sprintf("all %d logged load steps are matched, but no behaviour of Loader.tla then ends with the observed result", bad.nev)
+			} else {
+				bad.cs["loadWhy"] = fmt.Sprintf("no behaviour of Loader.tla performs logged load step %d after the %d steps before it", l, l-1)
+			}
+			g = g[rr:]
+		}
+	})
+	return total
 }
